@@ -29,7 +29,7 @@ int main(int argc, char **argv)
 		else printf("%d 0 %llx %llx %x\n", n,
 			    digest(fs->block_map, fs->super->s_first_data_block, ext2fs_blocks_count(fs->super) - 1),
 			    digest(fs->inode_map, 1, fs->super->s_inodes_count),
-			    fs->flags & (EXT2_FLAG_IGNORE_CSUM_ERRORS | EXT2_FLAG_BB_DIRTY | EXT2_FLAG_IB_DIRTY | EXT2_FLAG_DIRTY | EXT2_FLAG_CHANGED));
+			    fs->flags & (EXT2_FLAG_IGNORE_CSUM_ERRORS | EXT2_FLAG_BB_DIRTY | EXT2_FLAG_IB_DIRTY | EXT2_FLAG_DIRTY | EXT2_FLAG_CHANGED | EXT2_FLAG_BBITMAP_TAIL_PROBLEM | EXT2_FLAG_IBITMAP_TAIL_PROBLEM));
 		ext2fs_free(fs);
 	}
 	return 0;
